@@ -1,4 +1,5 @@
 import PyRatesModel.Net.Eval
+import PyRatesModel.Net.Jac
 import Driver.Proto
 namespace PyRates.Driver
 open Lean PyRates.Net
@@ -49,6 +50,12 @@ def parseCircuit (j : Json) : Except String Circuit := do
 
 /-- stand-in interpretation: arity 1: c0 + c1 a + c2 a²; arity 2: c0 + c1 a + c2 b + c3 a b -/
 def mkInterp (tbl : List (String × List Rat)) : Interp := fun f args =>
+  -- derivative of an arity-1 stand-in `f'`: c1 + 2 c2 a
+  if f.endsWith "'" then
+    match tbl.find? (·.1 == (f.dropRight 1)), args with
+    | some (_, [_, c1, c2]), [a] => c1 + 2 * c2 * a
+    | _, _ => 0
+  else
   match tbl.find? (·.1 == f), args with
   | some (_, [c0, c1, c2]), [a] => c0 + c1 * a + c2 * a * a
   | some (_, [c0, c1, c2, c3]), [a, b] => c0 + c1 * a + c2 * b + c3 * a * b
@@ -112,5 +119,19 @@ def netTrajCmd (j : Json) : Except String Json := do
   match (if des.isEmpty then trajectory I c extAt fuel heun dt steps 0 σ0 else trajectoryD I c des extAt fuel heun dt steps 0 σ0 []) with
   | some rows => return Json.mkObj [("rows", Json.arr (rows.map (fun r => Json.mkObj (r.map (fun (p, v) => (pathStr p, jRat v))))).toArray)]
   | none => return Json.mkObj [("error", "unresolved")]
+
+/-- {"nodes":..,"edges":..,"points":[..],"fuel":n,"interp":{..}} → {"results":[{"jac":{"row|col": q}}]} -/
+def netJacCmd (j : Json) : Except String Json := do
+  let c ← parseCircuit j
+  let I ← parseInterp j
+  let fuel ← getNat (← field j "fuel")
+  let pts ← (← field j "points").getArr?
+  let mut out : Array Json := #[]
+  for pt in pts do
+    let σ ← parsePoint pt
+    match jacobian I c σ fuel with
+    | some tbl => out := out.push (Json.mkObj [("jac", Json.mkObj (tbl.map (fun (pi, pj, v) => (pathStr pi ++ "|" ++ pathStr pj, jRat v))))])
+    | none => out := out.push (Json.mkObj [("error", "unresolved")])
+  return Json.mkObj [("results", Json.arr out)]
 
 end PyRates.Driver
